@@ -693,6 +693,9 @@ func (x *Exec) applyContract(s *State, in *ssa.Call, fc *FuncContract, callee *s
 		if recv != nil {
 			env.vars["self"] = *recv
 		}
+		if x.callFnSelf.K == vScalar && x.callFnSelf.T.S != "" {
+			env.vars["fnself"] = sval{v: x.callFnSelf}
+		}
 		for i, pn := range fc.Params {
 			if i < len(args) && i < sig.Params().Len() {
 				bind(pn, args[i], sig.Params().At(i).Type())
@@ -715,6 +718,7 @@ func (x *Exec) applyContract(s *State, in *ssa.Call, fc *FuncContract, callee *s
 		x.heapSym(s, "ghost:k", SArray(SInt, SInt))
 		x.heapSym(s, "ghost:epoch", SArray(SInt, SInt))
 		x.heapSym(s, "ghost:ctxp", SArray(SInt, SPos))
+		x.heapSym(s, "ghost:xh", SArray(SInt, SBool))
 		x.heapSym(s, "navpos", SArray(SInt, SPos))
 	}
 	// snapshot for old()
@@ -771,7 +775,7 @@ func (x *Exec) applyContract(s *State, in *ssa.Call, fc *FuncContract, callee *s
 	}
 	// ghost history variables: updated by the call rule itself
 	for _, cl := range fc.clauses("ghost") {
-		if streams || strings.HasPrefix(cl.Name, "buf(") {
+		if streams || strings.HasPrefix(cl.Name, "buf(") || strings.HasPrefix(cl.Name, "ixh(") {
 			x.applyGhost(s, env, cl, pre, recv)
 		}
 	}
@@ -991,10 +995,10 @@ func (x *Exec) keepOwnNavigators(s *State, pre map[string]T, args []Val, recv *s
 		for _, name := range x.fnc.OwnsNavs {
 			env := x.specEnvFor(s, "owns-navigators")
 			env.oldHeap = pre
-			f := fmt.Sprintf("forall(i, int, 0 <= i && i < len(%s) ==> pos(%s[i]) == old(pos(%s[i])))", name, name, name)
+			f := fmt.Sprintf("forall(i, int, 0 <= i && i < len(%s) ==> %s[i] == old(%s[i]) && pos(%s[i]) == old(pos(%s[i])))", name, name, name, name, name)
 			if t, err := env.evalBool(f); err == nil {
 				s.assume(t)
-				x.assumed["ownership: navigators this function collected in "+name+" are not moved by the functions it calls"] = true
+				x.assumed["ownership: the list "+name+" this function builds is not written, and the navigators collected in it are not moved, by the functions it calls"] = true
 			}
 		}
 	}
@@ -1037,6 +1041,11 @@ func (x *Exec) applyGhost(s *State, env *specEnv, cl *Clause, pre map[string]T, 
 		val = T{v.lit.String(), SInt}
 	}
 	ref := recv.v.T
+	if strings.Contains(cl.Name, "(fnself)") {
+		if fs, ok := env.vars["fnself"]; ok {
+			ref = fs.v.T
+		}
+	}
 	if ref.Sort == SIface {
 		ref = mk(SInt, "iptr", ref)
 	}
@@ -1137,7 +1146,7 @@ func (x *Exec) preserveOtherGhosts(s *State, pre map[string]T, recv T) {
 			}
 		}
 	}
-	for _, g := range []string{"ghost:k", "ghost:epoch", "ghost:ctxp"} {
+	for _, g := range []string{"ghost:k", "ghost:epoch", "ghost:ctxp", "ghost:xh"} {
 		old, ok1 := pre[g]
 		cur, ok2 := s.heap[g]
 		if !ok1 || !ok2 || old.S == cur.S {
@@ -1146,6 +1155,9 @@ func (x *Exec) preserveOtherGhosts(s *State, pre map[string]T, recv T) {
 		es := SInt
 		if g == "ghost:ctxp" {
 			es = SPos
+		}
+		if g == "ghost:xh" {
+			es = SBool
 		}
 		for _, o := range others {
 			ro, rr := mk(SInt, "iptr", o), mk(SInt, "iptr", recv)
@@ -1382,7 +1394,10 @@ func (x *Exec) callFuncValue(s *State, in *ssa.Call, fexpr ssa.Value, fv Val, ar
 					rv = &sval{v: base, typ: fa.X.Type()}
 				}
 			}
-			return x.applyContract(s, in, fc, nil, args, rv, sig)
+			x.callFnSelf = fv
+			r := x.applyContract(s, in, fc, nil, args, rv, sig)
+			x.callFnSelf = Val{}
+			return r
 		}
 	}
 	// contracts keyed by the function type name (e.g. "logical") or parameter name
